@@ -8,7 +8,6 @@ PROPS = {"C11": dict(
         "Zrnt.Proofs.C11.inSubtree_eq_descendant",
         "Zrnt.Proofs.C11.closestToSlot_eq_linear",
         "Zrnt.Proofs.C11.unknown_reported",
-        "Zrnt.Proofs.C11.queries_total_quiet",
         "Zrnt.Proofs.C11.queries_total",
         "Zrnt.Proofs.C11.queries_refine",
         "Zrnt.Proofs.C11.retained_queries_unchanged",
@@ -22,7 +21,7 @@ PROPS = {"C11": dict(
     rule="trees with forks, gaps and double proposals followed by sweeps of every ForkchoiceView query over known/unknown roots and slots before the anchor / after the head; counted: query lines the Go side executed",
     manifest=dict(
         level_text="Lean theorems about the code-shaped model (binary search = linear scan, subtree membership = ancestry on well-formed arrays) plus differential runs of all navigation queries against direct tree walks",
-        level_note="trusted: Lean kernel, hand model tied by correspondence, direct-walk oracle in Spec.lean; the refinement covers admissible histories before and after pruning; Search without options and from non-first anchors is unconstrained",
+        level_note="trusted: Lean kernel, hand model tied by correspondence, direct-walk oracle in Spec.lean; the refinement covers admissible histories before and after pruning, including the nodes answer (keys of Indices()), Search without options (heads) and CanonAtSlot at and after the head slot; only Search from non-first anchors is unconstrained (documented in Spec.Abs.search); queries_total holds for ALL histories",
         technique="Lean 4 proof over hand model + Go/Lean/oracle differential correspondence",
         design_ref="DESIGN.md 5/C11", engine="lean"),
 )}
